@@ -545,6 +545,20 @@ class Interp:
         return AV(kind="dict", origins=FRESH)
 
     def _comp(self, node, fr, elt):
+        # (f(a) for a in (x, y, z)) over a literal tuple of expressions: one abstract value per element (so that `x, y, z = (... for arr in (x, y, z))` keeps
+        # what each name aliases); a conditional expression in the element joins its arms
+        if len(node.generators) == 1 and not node.generators[0].ifs and isinstance(node.generators[0].iter, (ast.Tuple, ast.List)) and isinstance(node.generators[0].target, ast.Name) \
+                and 0 < len(node.generators[0].iter.elts) <= 8:
+            g = node.generators[0]
+            saved = dict(fr.env)
+            outs = []
+            for item in g.iter.elts:
+                fr.env = dict(saved)
+                self.assign(g.target, self.eval(item, fr), fr, node)
+                outs.append(self.eval(elt, fr))
+            fr.env = saved
+            j = join_all(outs)
+            return AV(kind="list", elts=tuple(outs), unit=j.unit, role=j.role, vals=j.vals, fill=j.fill, origins=FRESH)
         saved = dict(fr.env)
         for g in node.generators:
             it = self.eval(g.iter, fr)
